@@ -73,6 +73,7 @@ def streams(rng, tier):
                 perm.append({"op": "infer", "l": l})
     out.append(("perm", perm))
     out.append(("callsite", callsite_cases(rng, 400 if tier == "quick" else 4000)))
+    out.append(("write", [write_case(rng) for _ in range(600 if tier == "quick" else 6000)]))
     return out
 
 
@@ -128,12 +129,30 @@ def homogeneous_cases(rng):
     return cs
 
 
+def write_case(rng):
+    # ONE in-place write along the numeric ladder (bool < int < float < complex), None among the values or not,
+    # through every key form: the dtype afterwards is the old one promoted by every written value
+    ladder = [["b", True], ["i", 3], ["i", -1], ["f", (2.5).hex()], ["c", (1.0).hex(), (2.0).hex()], ["N"]]
+    top = rng.randint(1, 4)
+    start = [x for x in ladder[:top + 1] if x[0] != "N"] + ([["N"]] if rng.random() < 0.3 else [])
+    ln = rng.randint(1, 5)
+    a = rand_vec(rng, ln, start)
+    if all(x[0] == "N" for x in a):
+        a[0] = start[0]
+    form = rng.choice(["slice", "mask", "idx", "int", "table"])
+    pos = sorted(rng.sample(range(ln), rng.randint(1, ln))) if form != "int" else [rng.randrange(ln)]
+    if form == "slice":
+        lo = rng.randrange(ln)
+        pos = list(range(lo, rng.randint(lo + 1, ln)))
+    return {"op": "write", "a": a, "form": form, "pos": pos, "vals": rand_vec(rng, len(pos), ladder)}
+
+
 def callsite_cases(rng, n):
     cs = homogeneous_cases(rng)
     numeric = [s for s in SCALARS if s[0] not in ("s",)]
     strs = [["s", "x"], ["s", "yy"], ["N"], ["S", "q"]]
     for _ in range(n):
-        kind = rng.choice(["arith_vv", "arith_vs", "arith_vs", "join", "agg", "csv"])
+        kind = rng.choice(["arith_vv", "arith_vs", "arith_vs", "join", "agg", "csv", "write"])
         if kind == "arith_vv":
             ln = rng.randint(0, 4)
             pool = rng.choice([numeric, numeric, strs])
@@ -144,6 +163,8 @@ def callsite_cases(rng, n):
             pool = rng.choice([numeric, numeric, strs])
             cs.append({"op": "arith", "fn": rng.choice(OPS), "a": rand_vec(rng, ln, pool),
                        "b": rng.choice([x for x in pool if x[0] != "N"]), "form": "scalar"})
+        elif kind == "write":
+            cs.append(write_case(rng))
         elif kind == "join":
             nl, nr = rng.randint(0, 4), rng.randint(0, 4)
             keys = [["i", 1], ["i", 2], ["i", 3]]
@@ -230,6 +251,24 @@ def observe(case):
             if not isinstance(r, Vector) or isinstance(r, Table):
                 return {"skip": "non-vector result"}
             return {"cols": [{"vals": [V.enc(x) for x in r._underlying], "dt": V.schema_obs(r.schema())}]}
+        if op == "write":
+            v = Vector([V.dec(x) for x in case["a"]])
+            before = V.schema_obs(v.schema())
+            vals, pos, form = [V.dec(x) for x in case["vals"]], case["pos"], case["form"]
+            tgt = v
+            if form == "table":
+                t = Table({"c": v, "d": list(range(len(v)))}) if False else Table([v.alias("c"), Vector(list(range(len(v))), name="d")])
+                t[pos, "c"] = vals
+                tgt = t.cols()[0]
+            elif form == "int":
+                v[pos[0]] = vals[0]
+            elif form == "slice":
+                v[pos[0]:pos[-1] + 1] = vals
+            elif form == "mask":
+                v[[i in pos for i in range(len(v))]] = vals
+            else:
+                v[pos] = vals
+            return {"before": before, "cols": [{"vals": [V.enc(x) for x in tgt._underlying], "dt": V.schema_obs(tgt.schema())}]}
         if op == "join":
             L = Table({"k": [V.dec(x) for x in case["lk"]], "lp": [V.dec(x) for x in case["lp"]]})
             R = Table({"k2": [V.dec(x) for x in case["rk"]], "rp": [V.dec(x) for x in case["rp"]]})
@@ -283,6 +322,19 @@ def emit(case, obs):
         if obs["dt"] is None:
             return "CSkip" if (op == "vector" and not case["l"]) else "CBad"
         return f"CInfer {_seq(case['l'])} {V.coq_dtype(obs['dt'])}"
+    if op == "write":
+        # the model's promote_with, step by step along the written values; the last step must land on the observed dtype
+        d = obs["before"]
+        if d is None or obs["cols"][0]["dt"] is None:
+            return "CBad"
+        steps = []
+        for i, x in enumerate(case["vals"]):
+            nxt = [d[0], True] if x[0] == "N" else [V.join_kind(d[0], V.tag_kind(x)), d[1]]
+            if i == len(case["vals"]) - 1:
+                nxt = obs["cols"][0]["dt"]
+            steps.append(f"CPromote {V.coq_dtype(d)} {V.tag_vinfo(x)} {V.coq_dtype(nxt)}")
+            d = nxt
+        return "CAll " + clist(steps)
     # an empty column may be untyped (schema None): the library's "no dtype yet" state
     cols = [c for c in obs["cols"] if not (c["dt"] is None and not c["vals"])]
     if any(c["dt"] is None for c in cols):
@@ -317,6 +369,20 @@ def oracle(case, obs):
         want = V.infer_closed(case["l"])
         if obs["dt"] != want:
             return f"infer: {case['l']} typed {obs['dt']}, rule says {want}"
+        return None
+    if op == "write":
+        k, nl = V.infer_closed(case["a"])
+        if obs["before"] != [k, nl]:
+            return f"infer: {case['a']} typed {obs['before']}, rule says {[k, nl]}"
+        for x in case["vals"]:
+            if x[0] == "N":
+                nl = True
+            else:
+                k = V.join_kind(k, V.tag_kind(x))
+        c = obs["cols"][0]
+        if c["dt"] != [k, nl]:
+            return (f"callsite-write: {case['a']} written at {case['pos']} ({case['form']}) with {case['vals']} is typed "
+                    f"{c['dt']}; promoting {obs['before']} by every written value gives {[k, nl]}")
         return None
     for j, c in enumerate(obs["cols"]):
         if any(t[0] == "?" for t in c["vals"]) or (c["dt"] is None and not c["vals"]):
